@@ -22,7 +22,7 @@ CATS = {
     "pressure": ["Pa", "psi", "bar"],
 }
 FOREIGN = {"length": "s", "depth": "K", "time": "m", "temperature": "Pa", "pressure": "m"}
-IDS = ["si", "system 1", "field", "system 2", "lab"]
+IDS = ["si", "", "system 1", "field", "system 2", "lab"]  # the empty string is a legal id
 LISTENER_NAMES = ["L1", "L2", "L3", "L4"]
 
 # simulator-owned listeners (strong references live here and nowhere else)
@@ -737,7 +737,7 @@ class C17:
             "tier": tier,
             "world": "W-POSC",
             "cats": cats,
-            "ids": IDS[: rng.randint(2, 5)],
+            "ids": IDS[: rng.randint(2, 6)],
             "listeners": LISTENER_NAMES[: rng.randint(1, 4)],
             "n_steps": rng.randint(lo, hi),
             "intr_rate": rng.choice([0, 0, 0.1, 0.25]),
